@@ -3,3 +3,4 @@ pub mod c09;
 pub mod c10;
 pub mod c11;
 pub mod c15;
+pub mod c17;
